@@ -31,13 +31,10 @@ using xv::jstr;
 // reported by the "witnesses" space, so the defect keeps being detected.  Once the library is fixed the witness passes
 // and the guard switches itself off.
 struct KnownDefect { const char* id; const char* what; const char* history; };
+// (range-insertData-start-offset and iterator-null-current-on-remove were listed here until they were fixed in /repo by
+//  65be3d8 and d11221e; those transitions are now explored and compared strictly.)
+enum { KD_SHOW_PRECEDENCE = 0, KD_PREV_DEEPEST = 1, KD_PARTIAL_TEXT = 2, KD_SKIPPED_CURRENT = 3, KD_SPLIT_INVERSION = 4 };
 static const KnownDefect KNOWN_DEFECTS[] = {
-    {"range-insertData-start-offset",
-     "DOMRangeImpl::updateRangeForInsertedText sets the start offset to the insertion offset instead of adding the inserted length",
-     "mkRange(2);insertData(3,1,0)"},
-    {"iterator-null-current-on-remove",
-     "DOMNodeIteratorImpl::matchNodeOrParent dereferences the null current node when a node is removed before the iterator was stepped",
-     "mkNI(1,0,0);removeChild(5)"},
     {"walker-whatToShow-filter-precedence",
      "DOMTreeWalkerImpl::acceptNode lets the filter REJECT a node that whatToShow already skips (header: the whatToShow skip takes precedence over the filter)",
      "mkTW(1,2,1);tw.firstChild(0)"},
@@ -404,10 +401,8 @@ struct World {
         if (inf.skipped) { ref = saved; return AR_SKIPPED; }
         // KNOWN_DEFECTS guard (predicates on the reference model)
         guardedId = -1;
-        if (g_guard[0] && ref.hitD1) guardedId = 0;
-        else if (g_guard[1] && ref.hitD2 && ref.removals > 0) guardedId = 1;
-        else if (g_guard[6] && ref.hitD7) guardedId = 6;
-        else if (g_guard[2] || g_guard[3] || g_guard[4] || g_guard[5]) guardedId = guardPredicate(saved, op);
+        if (g_guard[KD_SPLIT_INVERSION] && ref.hitD7) guardedId = KD_SPLIT_INVERSION;
+        else if (g_guard[KD_SHOW_PRECEDENCE] || g_guard[KD_PREV_DEEPEST] || g_guard[KD_PARTIAL_TEXT] || g_guard[KD_SKIPPED_CURRENT]) guardedId = guardPredicate(saved, op);
         if (guardedId >= 0) { ref = saved; S.count(std::string("guarded:") + KNOWN_DEFECTS[guardedId].id); return AR_GUARDED; }
         std::vector<std::string> before;
         for (size_t i = 0; i < saved.v.size(); i++)
@@ -516,17 +511,17 @@ struct World {
     int guardPredicate(const RModel& m, const VOp& op) const {
         if (op.c >= K_TW_PARENT && op.c <= K_TW_PREV && viewIs(m, op.a, V_TW)) {
             const RView& w = m.v[op.a];
-            if (g_guard[2] && w.filt == 1 && w.show != 0) return 2;  // a REJECT filter combined with a whatToShow mask that hides elements
-            if (g_guard[3] && op.c == K_TW_PREV && walkerPrevNeedsDepth(m, w)) return 3;
-            if (g_guard[5] && (op.c == K_TW_FIRST || op.c == K_TW_LAST) && m.valid(w.cur) && w.cur != w.root && m.twFilter(w, w.cur) == F_SKIP) return 5;
+            if (g_guard[KD_SHOW_PRECEDENCE] && w.filt == 1 && w.show != 0) return KD_SHOW_PRECEDENCE;  // a REJECT filter combined with a whatToShow mask that hides elements
+            if (g_guard[KD_PREV_DEEPEST] && op.c == K_TW_PREV && walkerPrevNeedsDepth(m, w)) return KD_PREV_DEEPEST;
+            if (g_guard[KD_SKIPPED_CURRENT] && (op.c == K_TW_FIRST || op.c == K_TW_LAST) && m.valid(w.cur) && w.cur != w.root && m.twFilter(w, w.cur) == F_SKIP) return KD_SKIPPED_CURRENT;
         }
-        if (g_guard[4] && (op.c == K_R_DELETE || op.c == K_R_EXTRACT || op.c == K_R_SURROUND) && viewIs(m, op.a, V_RANGE)) {
+        if (g_guard[KD_PARTIAL_TEXT] && (op.c == K_R_DELETE || op.c == K_R_EXTRACT || op.c == K_R_SURROUND) && viewIs(m, op.a, V_RANGE)) {
             const RView& w = m.v[op.a];
             if (!w.detached && w.sc != w.ec)
                 for (size_t j = 0; j < m.v.size(); j++) {
                     const RView& o = m.v[j];
                     if ((int)j == op.a || o.kind != V_RANGE || o.detached) continue;
-                    for (int c : {w.sc, w.ec}) if (m.isText(c) && ((o.sc == c && o.so > 0) || (o.ec == c && o.eo > 0))) return 4;
+                    for (int c : {w.sc, w.ec}) if (m.isText(c) && ((o.sc == c && o.so > 0) || (o.ec == c && o.eo > 0))) return KD_PARTIAL_TEXT;
                 }
         }
         return -1;
